@@ -714,6 +714,14 @@ def check(rep: Report, tier: str, seed: int, prop: str = None):
                                          "last_states": (res.counterexample or [])[-2:]},
                                         discriminator="model:" + name))
         rep.exhaustive = True
+        if prop == "C09":
+            # the unbounded argument for the closed form: for ALL rates, minimum fees, scales and sequences of fills the fees
+            # charged add up to FeeDue(total traded) -- TLAPS, on the operators ExchangeCore uses (FeeCore.tla)
+            from . import tlaps
+            pr = tlaps.prove("FeeProof", wd)
+            rep.extra["tlaps"] = pr
+            if not pr["proved"]:
+                raise tlc.MachineryError(f"TLAPS proof of the fee closed form no longer checks: {pr}")
         if not quick:
             for name in names:
                 for probe in REACH_FOR.get(name, []):
